@@ -49,14 +49,13 @@ static void sm_setup(SM& sm, LP& lp, int nr, int nc)
 #ifndef RS_J
 #define RS_J (PNC - 1)
 #endif
-extern "C" void h_c08_removeRowSingleton()
+// one case: the coefficient a is a CONCRETE constant here (the routine's "a == 0" early exit would otherwise be a feasible path for
+// the symbolic execution and the history array would have a symbolic size afterwards); the four values are separate calls.
+static void rs_case(LP& lp, SM& sm, const Dense<PNR, PNC>& d, const double a)
 {
    const int I = RS_I, J = RS_J, L = PNR - 1;
-   unsigned mask = 0; for(int i = 0; i < PNR; ++i) for(int j = 0; j < PNC; ++j) if(i != I || j == J) mask |= 1u << (i * PNC + j);
-   LP lp; if(IS_MIN) lp.changeSense(SPxLPBase<double>::MINIMIZE);
-   Dense<PNR, PNC> d; build<PNR, PNC>(lp, d, mask, KV);
-   double a = d.a[I][J]; vp_assume(is_pm12(a));
-   SM sm; sm_setup(sm, lp, PNR, PNC);
+   lp.rowVector_w(I).value(0) = a;                  // row I = { a x_J }
+   lp.colVector_w(J).value(I) = a;                  // column J is dense: its entry of row I is at position I
    // reference: implied interval (divisions by +-1, +-2 are exact)
    double ilo, iup;
    if(a > 0.0) { ilo = d.lhs[I] <= -INF() ? -INF() : d.lhs[I] / a; iup = d.rhs[I] >= INF() ? INF() : d.rhs[I] / a; }
@@ -95,6 +94,139 @@ extern "C" void h_c08_removeRowSingleton()
       if(a > 0.0 && d.rhs[I] < INF() && d.lhs[I] <= -INF() && nup < d.up[J]) vp_cover(5);
       if(nlo > nup) vp_cover(6);                                                 // empty intersection left to the later column pass
       if(nlo == d.lo[J] && nup == d.up[J]) vp_cover(7);                          // redundant row
+   }
+}
+extern "C" void h_c08_removeRowSingleton()
+{
+   const int I = RS_I, J = RS_J;
+   unsigned mask = 0; for(int i = 0; i < PNR; ++i) for(int j = 0; j < PNC; ++j) if(i != I || j == J) mask |= 1u << (i * PNC + j);
+   // LP and simplifier live on the heap and are never destroyed: the four cases below must not be merged into one state in
+   // which the history array holds one of four different PostStep objects
+   LP* lp = new LP; if(IS_MIN) lp->changeSense(SPxLPBase<double>::MINIMIZE);
+   Dense<PNR, PNC> d; build<PNR, PNC>(*lp, d, mask, KV);
+   SM* sm = new SM; sm_setup(*sm, *lp, PNR, PNC);
+   int ca = vp_int_in(0, 3);
+   if(ca == 0) rs_case(*lp, *sm, d, 1.0);
+   else if(ca == 1) rs_case(*lp, *sm, d, -1.0);
+   else if(ca == 2) rs_case(*lp, *sm, d, 2.0);
+   else rs_case(*lp, *sm, d, -2.0);
+   vp_cover(1);
+}
+// ---------------------------------------------------------------------------------------------------------------------
+// simplifyDual (dominated / weakly dominated columns). Inside the routine the LP is a MAXIMISATION problem with c = maxObj:
+//    max c^T x,  lhs <= Ax <= rhs,  lo <= x <= up;   r = c - A^T y;   optimality: r_j > 0 => x_j = up_j, r_j < 0 => x_j = lo_j,
+//    y_i > 0 => (Ax)_i = rhs_i, y_i < 0 => (Ax)_i = lhs_i.
+// Oracle: the harness draws an exact primal-dual optimal pair (x, y) FIRST and derives sides and bounds from it (distances 0..2 or
+// infinite, distance 0 where complementary slackness demands it), so the LP has a finite optimum witnessed by (x, y). Then
+//  (a) the routine must return OKAY (UNBOUNDED / DUAL_INFEASIBLE / INFEASIBLE would be false of this LP);
+//  (b) every column it fixes is fixed at one of its two original bounds, and at the bound every optimal solution is at when the
+//      witnessed reduced cost is nonzero (complementary slackness with the optimal dual y: r_j > 0 => upper, r_j < 0 => lower);
+//  (c) columns it does not fix keep their bounds; sides, objective and matrix are not touched by the decision part.
+// What "the routine fixes column j at v" means is observed at the call simplifyDual -> fixColumn(lp, j): v = lp.lower(j) then.
+// Solver build: fixColumn/removeCol are replaced by recording models (they only execute the decision; FixVariablePS is O2's
+// subject; the loop runs downwards, so the swapped-in last column is never looked at again and the decisions are the same);
+// native build: the same record is read from the FixVariablePS entries the real fixColumn appended to the history.
+#ifndef SD_NC
+#define SD_NC 2
+#endif
+#ifndef KD
+#define KD 3
+#endif
+struct FixLog { int n; int j[8]; double v[8]; };
+static FixLog g_fix;
+extern "C" void m_sd_fixColumn(SM* self, SPxLPBase<double>* lp, int j, bool correctIdx)
+{
+   if(g_fix.n < 8) { g_fix.j[g_fix.n] = j; g_fix.v[g_fix.n] = lp->lower(j); }
+   g_fix.n++;
+}
+extern "C" void m_sd_removeCol(SM* self, SPxLPBase<double>* lp, int j) { }
+extern "C" void m_sd_removeRow(SM* self, SPxLPBase<double>* lp, int i) { vp_assume(0); }      // no free rows in this harness
+// message handler as typed raw memory (the real constructor needs std::cout/std::cerr); only its verbosity is ever read
+union OutMem { SPxOut o; OutMem() {} ~OutMem() {} };
+static OutMem g_out;
+static double dist_or_inf(int k, double infv)
+{
+   int inf = vp_int_in(0, 1);
+   double v = vp_small(0, k);
+   return inf ? infv : v;
+}
+extern "C" void h_c08_simplifyDual()
+{
+   const int NR = 2, NC = SD_NC;
+   // columns 0,1 dense; a third column (if any) is a singleton in row 0
+   unsigned mask = 0; for(int i = 0; i < NR; ++i) for(int j = 0; j < NC; ++j) if(j < 2 || i == 0) mask |= 1u << (i * NC + j);
+   LP* lp = new LP; if(IS_MIN) lp->changeSense(SPxLPBase<double>::MINIMIZE);
+   Dense<NR, NC> d; build<NR, NC>(*lp, d, mask, KD);
+   if(NC > 2) vp_assume(is_pm12(d.a[0][2]));                      // maxObj/a exact
+   // the witnessed optimal pair
+   double x[NC], y[NR], s[NR], c[NC], r[NC];
+   for(int j = 0; j < NC; ++j) x[j] = vp_small(-KD, KD);
+   for(int i = 0; i < NR; ++i) y[i] = vp_small(-2, 2);
+   for(int j = 0; j < NC; ++j) c[j] = IS_MIN ? -d.obj[j] : d.obj[j];            // = maxObj
+   for(int i = 0; i < NR; ++i) { s[i] = 0.0; for(int j = 0; j < NC; ++j) s[i] += d.a[i][j] * x[j]; }
+   for(int j = 0; j < NC; ++j) { r[j] = c[j]; for(int i = 0; i < NR; ++i) r[j] -= d.a[i][j] * y[i]; }
+   // bounds and sides derived from the pair (overwrite what build() put there)
+   for(int j = 0; j < NC; ++j)
+   {
+      double dl = dist_or_inf(2, INF());
+      double du = dist_or_inf(2, INF());
+      if(r[j] > 0.0) du = 0.0;
+      if(r[j] < 0.0) dl = 0.0;
+      d.lo[j] = dl >= INF() ? -INF() : x[j] - dl;
+      d.up[j] = du >= INF() ? INF() : x[j] + du;
+      lp->lower_w(j) = d.lo[j]; lp->upper_w(j) = d.up[j];
+   }
+   for(int i = 0; i < NR; ++i)
+   {
+      double el = dist_or_inf(2, INF());
+      double eu = dist_or_inf(2, INF());
+      if(y[i] > 0.0) eu = 0.0;
+      if(y[i] < 0.0) el = 0.0;
+      vp_assume(el < INF() || eu < INF());                        // no free row
+      d.lhs[i] = el >= INF() ? -INF() : s[i] - el;
+      d.rhs[i] = eu >= INF() ? INF() : s[i] + eu;
+      lp->lhs_w(i) = d.lhs[i]; lp->rhs_w(i) = d.rhs[i];
+   }
+   SM* sm = new SM; sm_setup(*sm, *lp, NR, NC);
+   sm->m_hist.data.reserve(16);                                   // no relocation of the history array
+   g_out.o.m_verbosity = SPxOut::ERROR; g_out.o.m_streams = nullptr;
+   sm->spxout = &g_out.o;                                         // simplify(): spxout = lp.spxout; messages of level INFO2 are off
+   g_fix.n = 0;
+   bool again = false;
+   SI::Result res = sm->simplifyDual(*lp, again);
+   vp_assert(res == SI::OKAY, 1);                                                // (a)
+   if(res == SI::OKAY)
+   {
+#ifdef VP_NATIVE
+      for(int k = 0; k < sm->m_hist.size(); ++k)
+      {
+         SM::FixVariablePS* fv = dynamic_cast<SM::FixVariablePS*>(sm->m_hist[k].get());
+         if(fv) { if(g_fix.n < 8) { g_fix.j[g_fix.n] = fv->m_j; g_fix.v[g_fix.n] = fv->m_val; } g_fix.n++; }
+      }
+#endif
+      vp_assert(g_fix.n <= NC, 2);
+      bool fixed[NC]; for(int j = 0; j < NC; ++j) fixed[j] = false;
+      for(int k = 0; k < NC; ++k) if(k < g_fix.n)
+      {
+         int j = g_fix.j[k]; double v = g_fix.v[k];
+         vp_assert(j >= 0 && j < NC, 3);
+         if(j < 0 || j >= NC) continue;
+         vp_assert(!fixed[j], 4);                                                // a column is fixed once
+         fixed[j] = true;
+         vp_assert(v == d.lo[j] || v == d.up[j], 5);                             // (b) at an original bound
+         vp_assert(v > -INF() && v < INF(), 6);
+         if(r[j] > 0.0) vp_assert(v == d.up[j], 7);                              // (b) every optimal solution has x_j = up_j
+         if(r[j] < 0.0) vp_assert(v == d.lo[j], 8);                              // (b) every optimal solution has x_j = lo_j
+         if(d.lo[j] < d.up[j] && v == d.up[j]) vp_cover(2);
+         if(d.lo[j] < d.up[j] && v == d.lo[j]) vp_cover(3);
+      }
+#ifndef VP_NATIVE
+      // (c) decision part only (solver build: nothing is removed): unfixed columns keep their bounds, fixed ones are collapsed to v
+      for(int j = 0; j < NC; ++j) if(!fixed[j]) vp_assert(lp->lower(j) == d.lo[j] && lp->upper(j) == d.up[j], 9);
+      for(int i = 0; i < NR; ++i) vp_assert(lp->lhs(i) == d.lhs[i] && lp->rhs(i) == d.rhs[i], 10);
+#endif
+      if(g_fix.n == 0) vp_cover(4);
+      if(g_fix.n == 2) vp_cover(5);
    }
    vp_cover(1);
 }
